@@ -88,6 +88,19 @@ func c02ProgOracle(e *progEnv, res *progStepResult) (sig, what string, descend b
 	if len(d) > 0 {
 		return "unexplained:program:differ:" + mn, fmt.Sprintf("interpreters differ after %v from seed state %d in %s | cpu65c816 %v | cpualt %v", e.pathNames(), e.seed, strings.Join(d, ","), res.post[0].raw, res.post[1].raw), false
 	}
+	if res.post[0].panic == nil {
+		// Reset from this state: both interpreters must come up identically (the path state is reloaded afterwards)
+		var after [2]cpuh.Raw
+		var pn [2]interface{}
+		for i := 0; i < 2; i++ {
+			pn[i] = e.x.ms[i].Reset()
+			after[i] = e.x.ms[i].Save()
+			e.x.ms[i].Load(e.cur[i])
+		}
+		if (pn[0] == nil) != (pn[1] == nil) || (pn[0] == nil && after[0] != after[1]) {
+			return "unexplained:program:reset-differs", fmt.Sprintf("Reset after %v from seed state %d: cpu65c816 %v (panic %v) | cpualt %v (panic %v)", e.pathNames(), e.seed, after[0], pn[0], after[1], pn[1]), false
+		}
+	}
 	return "", "", res.post[0].panic == nil
 }
 
@@ -139,7 +152,7 @@ func runC02(r *report.Run) {
 			r.Sample(cs)
 		}
 	}
-	r.Set("rule", "every case of the five single-step sweeps (with E in {0,1} everywhere, decimal in the operation and flag sweeps, pending interrupt in {0,none,NMI,IRQ} in the flag sweep) and every instruction sequence of the program search is executed on both interpreters from identical raw states and identical images; after each step all exported registers (both copies of A/X/Y), flags, E, Stopped, Interrupt, per-step cycles, AllCycles and the write sets must be identical; non-trivial = the step wrote memory or changed SP, P or the accumulator")
+	r.Set("rule", "every case of the five single-step sweeps (with E in {0,1} everywhere, decimal in the operation and flag sweeps, pending interrupt in {0,none,NMI,IRQ} in the flag sweep) and every instruction sequence of the program search (incl. pending NMI/IRQ, IRQ raised through TriggerIRQ, and a Reset from every reached state) is executed on both interpreters from identical raw states and identical images; after each step all exported registers (both copies of A/X/Y), flags, E, Stopped, Interrupt, per-step cycles, AllCycles and the write sets must be identical; non-trivial = the step wrote memory or changed SP, P or the accumulator")
 	r.Assume("no reference model involved: the oracle is raw lockstep equality of the two implementations")
 	c := cpuDefaultCase(0xAF)
 	c.S.K, c.S.PC = 2, 0xFFFD
